@@ -598,6 +598,8 @@ _VIA = A(which=st.sampled_from(['upper', 'len', 'startswith', 'zfill', 'year', '
 
 @op('via_str_dt', _VIA)
 def _(f, a):
+    if 0 in f.shape:
+        return None  # (frames without rows or columns: the listed zero-size class; the helpers add nothing to it)
     return _via(f, a)
 
 
